@@ -543,7 +543,10 @@ class Oracles:
                     tm.may_forget = False if got in ("C", "E", "U") else tm.may_forget
 
     def is_injected(self, pm: PoolM, exc: BaseException) -> bool:
-        return any(exc is x for x in pm.injected)
+        if any(exc is x for x in pm.injected):
+            return True
+        # a user function that returned a non-coroutine makes the library raise its documented NotCoroutine out of the spawner
+        return type(exc).__name__ == "NotCoroutine" and any(getattr(r, "bad_return", None) is not None for r in pm.reqs)
 
     async def actor_close(self, op: dict) -> None:
         w, X = self.w, self.L.exceptions
@@ -939,6 +942,21 @@ class Oracles:
                                f"r{rm.rid}: {lr} live, num_concurrent {rm.nc}, pool {live}/{pm.size}, pulled {rm.pulled}")
                     if lr == rm.nc:
                         w.label("map:at-num_concurrent")
+            # C10: the union for several names (and asking for it changes nothing)
+            names = [n for n, r in pm.groups_live.items() if not getattr(r, "unknown_reported", False)]
+            if len(names) >= 2 and not pm.closed:
+                try:
+                    got = pm.pool.get_group_ids(*names)
+                except Exception as e:
+                    w.fail({"C10"}, "group/union-query-raised", f"{names}: {type(e).__name__}")
+                else:
+                    self.sync_groups(pm)
+                    want = set()
+                    for n in names:
+                        want |= set(pm.groups_live[n].tids)
+                    if set(got) != want:
+                        w.fail({"C10"}, "group/union-of-several-names", f"{names}: {sorted(got)} != {sorted(want)}")
+                    w.label("group:union-query")
             # C10 partition at idle
             for tm in pm.tasks.values():
                 rm = tm.req
@@ -1092,6 +1110,10 @@ class Oracles:
                 if not rm.cancelled:
                     w.fail(C, "final/spawner-never-finished", rid)
             elif not sp.cancelled() and sp.exception() is not None:
+                if getattr(rm, "bad_return", None) is not None and type(sp.exception()).__name__ == "NotCoroutine":
+                    # the user's function returned something that is not a coroutine: the request dies there, nothing more is owed
+                    w.label("fault:non-coroutine-return")
+                    return
                 if self.is_injected(pm, sp.exception()) and getattr(rm, "iter_failed", None) is not None:
                     # the user's argument iterable raised: what was pulled before must have been processed, nothing more is owed
                     for c in rm.calls:
